@@ -63,6 +63,8 @@ type stallConn struct {
 	got       []byte
 	closed    bool
 	closeCh   chan struct{}
+	in        []byte // bytes from the player that the session has not read yet
+	rdParked  bool   // the session's read loop waits in Read with nothing to read
 }
 
 func newStallConn() *stallConn {
@@ -72,8 +74,34 @@ func newStallConn() *stallConn {
 }
 
 func (c *stallConn) Read(b []byte) (int, error) {
-	<-c.closeCh
-	return 0, errors.New("closed")
+	c.mu.Lock()
+	defer c.mu.Unlock()
+	for len(c.in) == 0 && !c.closed {
+		c.rdParked = true
+		c.cond.Broadcast()
+		c.cond.Wait()
+	}
+	c.rdParked = false
+	if c.closed || len(b) == 0 {
+		return 0, errors.New("closed")
+	}
+	n := copy(b, c.in)
+	c.in = c.in[n:]
+	return n, nil
+}
+
+// feed hands bytes of the player to the session and waits until its read loop
+// has taken them all and waits for more - or has ended with the connection closed.
+func (c *stallConn) feed(b []byte) error {
+	c.mu.Lock()
+	if c.closed {
+		c.mu.Unlock()
+		return nil
+	}
+	c.in = append(c.in, b...)
+	c.cond.Broadcast()
+	c.mu.Unlock()
+	return c.waitFor(func() bool { return c.closed || (len(c.in) == 0 && c.rdParked) })
 }
 
 func (c *stallConn) Write(b []byte) (int, error) {
@@ -179,6 +207,10 @@ type c15Cons struct {
 	stat    func() uint64
 	udpRecv [2]*net.UDPConn // rtsp: the player's RTP sockets (video, audio)
 	udpSrv  []*nazanet.UdpConnection
+	udpLal  [2][2]*net.UDPConn // rtsp: lal's sockets per track: [track][0 rtp, 1 rtcp]
+	sentUdp [2]int             // datagrams sent to lal's rtp / rtcp sockets
+	rdStat  func() (connRead, sessRead uint64)
+	startRd func() // starts the session's read loop (as its server does after the join)
 	conn    *stallConn
 	owner   interface{} // struct that (transitively) holds the naza connection
 	path    []string    // field path from owner to the connection.Connection
@@ -251,6 +283,10 @@ func (c *c15Cons) countWrites() {
 	inner := field.Interface().(connection.Connection)
 	c.att = new(int64)
 	field.Set(reflect.ValueOf(&c15CountConn{Connection: inner, n: c.att}))
+	if c.rdStat == nil {
+		// http-flv / http-ts: the session's GetStat does not look at the connection
+		c.rdStat = func() (uint64, uint64) { return inner.GetStat().ReadBytesSum, 0 }
+	}
 }
 
 // rtsp: does a packet with this payload go to the command connection
@@ -275,9 +311,14 @@ func (c *c15Cons) udpTrack(i int) (rtp, rtcp *nazanet.UdpConnection) {
 		panic("c15 udp listen: " + err.Error())
 	}
 	c.udpRecv[i] = recv
-	mk := func() *nazanet.UdpConnection {
+	mk := func(k int) *nazanet.UdpConnection {
+		lc, err := net.ListenUDP("udp4", &net.UDPAddr{IP: net.IPv4(127, 0, 0, 1)})
+		if err != nil {
+			panic("c15 udp listen: " + err.Error())
+		}
+		c.udpLal[i][k] = lc
 		u, err := nazanet.NewUdpConnection(func(o *nazanet.UdpConnectionOption) {
-			o.LAddr = "127.0.0.1:0"
+			o.Conn = lc
 			o.RAddr = recv.LocalAddr().String()
 			o.MaxReadPacketSize = 1500
 		})
@@ -287,7 +328,7 @@ func (c *c15Cons) udpTrack(i int) (rtp, rtcp *nazanet.UdpConnection) {
 		c.udpSrv = append(c.udpSrv, u)
 		return u
 	}
-	return mk(), mk()
+	return mk(0), mk(1)
 }
 
 // datagrams received so far on one of the player's sockets.  A sentinel the
@@ -347,6 +388,10 @@ func newC15Cons(spec string, capacity int) *c15Cons {
 	defer func() {
 		if c.owner != nil {
 			c.countWrites()
+			if c.startRd != nil {
+				c.startRd()
+				_ = c.conn.waitFor(func() bool { return c.conn.rdParked || c.conn.closed })
+			}
 		}
 	}()
 	switch kind {
@@ -357,6 +402,8 @@ func newC15Cons(spec string, capacity int) *c15Cons {
 		rtmp.VerifC15SetWChanSize(old)
 		c.owner, c.path = s, []string{"conn"}
 		c.multi = true
+		c.startRd = func() { go func() { _ = s.VerifC15RunReadLoop() }() }
+		c.rdStat = func() (uint64, uint64) { return s.GetStat().ReadBytesSum, 0 }
 		code := func(err error) int {
 			switch err {
 			case nil:
@@ -398,6 +445,8 @@ func newC15Cons(spec string, capacity int) *c15Cons {
 		c.write = func(bufs [][]byte) int { s.Write(joinBufs(bufs)); return 0 }
 		c.isAlive = func() bool { _, w := s.IsAlive(); return w }
 		c.dispose = func() { _ = s.Dispose() }
+		// logic.HttpServerHandler.ServeSubSession: RunLoop, then (OnDel and) Dispose
+		c.startRd = func() { go func() { _ = s.RunLoop(); _ = s.Dispose() }() }
 	case "ts", "wsts":
 		old := httpts.SubSessionWriteChanSize
 		httpts.SubSessionWriteChanSize = capacity
@@ -407,6 +456,7 @@ func newC15Cons(spec string, capacity int) *c15Cons {
 		c.write = func(bufs [][]byte) int { s.Write(joinBufs(bufs)); return 0 }
 		c.isAlive = func() bool { _, w := s.IsAlive(); return w }
 		c.dispose = func() { _ = s.Dispose() }
+		c.startRd = func() { go func() { _ = s.RunLoop(); _ = s.Dispose() }() }
 	case "rtp", "wsrtp":
 		old := rtsp.VerifC15SetCmdWriteChanSize(capacity)
 		cmd := rtsp.NewServerCommandSession(nil, c.conn, rtsp.ServerAuthConfig{}, kind == "wsrtp", "key")
@@ -448,6 +498,11 @@ func newC15Cons(spec string, capacity int) *c15Cons {
 			return 0
 		}
 		c.stat = func() uint64 { return sub.GetStat().WroteBytesSum }
+		// the command session's read loop must find its sub session (the field DESCRIBE sets);
+		// rtsp.Server.handleTcpConnect: RunLoop, then (OnDel and) Dispose of the sub session
+		c15SetField(cmd, "subSession", sub)
+		c.startRd = func() { go func() { _ = cmd.RunLoop(); _ = sub.Dispose() }() }
+		c.rdStat = func() (uint64, uint64) { return cmd.GetStat().ReadBytesSum, sub.GetStat().ReadBytesSum }
 		c.isAlive = func() bool { _, w := sub.IsAlive(); return w }
 		c.dispose = func() { _ = sub.Dispose() }
 	default:
@@ -585,10 +640,11 @@ func (c *c15Cons) cleanup() {
 // player's UDP sockets received
 func (c *c15Cons) extra() string {
 	att := tokNum(uint64(atomic.LoadInt64(c.att)))
+	crd, srd := c.rdStat()
 	if c.kind != "rtp" && c.kind != "wsrtp" {
-		return att
+		return att + "/" + tokNum(crd)
 	}
-	return fmt.Sprintf("%s/%s/%s/%s", att, tokNum(c.stat()), c15Datagrams(c.udpRecv[0]), c15Datagrams(c.udpRecv[1]))
+	return fmt.Sprintf("%s/%s/%s/%s/%s/%s", att, tokNum(c.stat()), c15Datagrams(c.udpRecv[0]), c15Datagrams(c.udpRecv[1]), tokNum(crd), tokNum(srd))
 }
 
 // report: codes;pre;q;h;state;wire
@@ -641,11 +697,12 @@ func c15ParseBufs(tok string) [][]byte {
 func c15Ident(b []byte) []byte { return b }
 
 // c15.run <kind:cap,kind:cap,...> <op,op,...>
-//   p<buf>|<buf>  publish one unit to every consumer (fan-out order = index order)
-//   r<i>.<n>      consumer i reads: n blocked writes are released one after the other
-//   f<i>.<n>      the blocked write of consumer i fails after n bytes (write deadline)
-//   d<i>          dispose consumer i
-//   s             liveness sweep: IsAlive on every consumer, dispose when write-alive is false
+//
+//	p<buf>|<buf>  publish one unit to every consumer (fan-out order = index order)
+//	r<i>.<n>      consumer i reads: n blocked writes are released one after the other
+//	f<i>.<n>      the blocked write of consumer i fails after n bytes (write deadline)
+//	d<i>          dispose consumer i
+//	s             liveness sweep: IsAlive on every consumer, dispose when write-alive is false
 func c15Run(a []string) string {
 	var cs []*c15Cons
 	defer func() {
@@ -690,6 +747,8 @@ func c15Run(a []string) string {
 				if i < len(cs) {
 					err = cs[i].disposeAndSettle()
 				}
+			case 'i':
+				err = c15Inbound(cs, op[1:])
 			case 's':
 				for _, c := range cs {
 					if !c.isAlive() {
@@ -720,9 +779,9 @@ func c15Run(a []string) string {
 type c15GroupObserver struct{}
 
 func (c15GroupObserver) CleanupHlsIfNeeded(appName string, streamName string, path string) {}
-func (c15GroupObserver) OnHlsMakeTs(info base.HlsMakeTsInfo)                              {}
-func (c15GroupObserver) OnRelayPullStart(info base.PullStartInfo)                         {}
-func (c15GroupObserver) OnRelayPullStop(info base.PullStopInfo)                           {}
+func (c15GroupObserver) OnHlsMakeTs(info base.HlsMakeTsInfo)                               {}
+func (c15GroupObserver) OnRelayPullStart(info base.PullStartInfo)                          {}
+func (c15GroupObserver) OnRelayPullStop(info base.PullStopInfo)                            {}
 
 // the HTTP response header block (plain or WebSocket upgrade) is replaced by
 // the single byte 'H': its text is lal's business, its position is ours
@@ -736,9 +795,10 @@ func c15NormHttp(b []byte) []byte {
 }
 
 // c15.group <cap> <subs: string of f|w|r> <op,op,...>
-//   p<type>:<ts>:<payload>   Group.OnReadRtmpAvMsg
-//   r<i>.<n>  d<i>           as in c15.run
-//   s                        Group.Tick(120*k)
+//
+//	p<type>:<ts>:<payload>   Group.OnReadRtmpAvMsg
+//	r<i>.<n>  d<i>           as in c15.run
+//	s                        Group.Tick(120*k)
 func c15Group(a []string) string {
 	capacity := intTok(a[0])
 	if capacity < 1 {
@@ -769,7 +829,7 @@ func c15Group(a []string) string {
 			select {
 			case <-done:
 			case <-time.After(c15WatchdogDur()):
-		atomic.AddInt32(&c15Expired, 1)
+				atomic.AddInt32(&c15Expired, 1)
 				return "blocked@add"
 			}
 			if err := c.settleAfterPublish(wasBlocked, false); err != nil {
@@ -808,7 +868,7 @@ func c15Group(a []string) string {
 				select {
 				case <-done:
 				case <-time.After(c15WatchdogDur()):
-		atomic.AddInt32(&c15Expired, 1)
+					atomic.AddInt32(&c15Expired, 1)
 					return fmt.Sprintf("blocked@op%d", k)
 				}
 				for i, c := range cs {
@@ -830,6 +890,8 @@ func c15Group(a []string) string {
 				if i < len(cs) {
 					err = cs[i].disposeAndSettle()
 				}
+			case 'i':
+				err = c15Inbound(cs, op[1:])
 			case 's':
 				tick += 120
 				done := make(chan struct{})
@@ -837,7 +899,7 @@ func c15Group(a []string) string {
 				select {
 				case <-done:
 				case <-time.After(c15WatchdogDur()):
-		atomic.AddInt32(&c15Expired, 1)
+					atomic.AddInt32(&c15Expired, 1)
 					return fmt.Sprintf("blocked@op%d", k)
 				}
 				for _, c := range cs {
